@@ -3,18 +3,21 @@ import random
 import common as C
 import gen as G
 import codec, targets, cont
+import containercodec
 
-MODEL_TARGETS = ["model/De.vo", "model/Reader.vo"]
+MODEL_TARGETS = ["model/De.vo", "model/Reader.vo", "model/ContainerCodec.vo", "model/ContainerReplay.vo"]
 COQ_TARGETS = ["props/C11.vo", "proofs/ConstsTie.vo", "proofs/DeDispatchTie.vo"]
 THEOREMS = [("C11", ["C11_varint", "C11_de", "C11_datum", "C11_container", "C11_compressed_file_chunk_independent"])]
 PROOF_FILES = ["proofs/ReaderProofs.v", "proofs/VarintProofs.v", "props/C11.v", "proofs/ContainerChunkProofs.v", "proofs/ContainerReadProofs.v", "proofs/DecodeLoopProofs.v", "proofs/ContainerCodecProofs.v"]
 TRUSTED_BASE = [
     "Coq 8.16.1 kernel; no axioms (Print Assumptions: closed)",
     "hand-written model/Reader.v of de/read/mod.rs (SliceRead; ReaderRead over a BufRead whose fill_buf follows a chunk plan; the byte-wise varint gathering path), model/De.v, model/Varint.v of integer-encoding 4.1.0; tied by the correspondence run under every chunk size",
+    "hand-written model/ContainerCodec.v (ccr_file: the reader of WHOLE files with compressed blocks -- cr_open, then per block count / size varints, negative checks, block_open / block_run of DecodeLoop.v or snappy_run, end-of-block check, sync marker, the chunk plan threaded through the blocks), tied to the crate by running the extracted function on every compressed file the run reads through `crt` (lib/containercodec.py, OCaml command `ccr`): same bytes, same kind of source (slice / the same chunk plan), the value decoder cc_vdec for the schema text of the header (Python json -> AST -> Parse.parse_schema), the codec named in the header, and a REPLAY streaming decoder (model/ContainerReplay.v) that answers from the reads hook H4 recorded for each block (bytes produced or Err, compressed bytes consumed = difference of the Take limits; a block finds its reads by the bytes its Take holds and the chunk-plan state at its first byte); compared: schema text, user metadata, the values before the first error (borrows erased), the way the run ends (end of stream; class of the first error: negative count/size, block cannot be opened, decoder Err / decompressed data left / Take not exhausted in the end check, sync mismatch, other = value error | unreadable count/size | short marker), under both extreme read policies (every refill a fill_buf; every refill of >= capacity outstanding bytes a bypassing read). TRUSTED in this tie: hook H4 records lengths only -- the BYTES of each read are the block's data decoded by the compression library on its own (harness `decode`, cross-checked against Python's zlib / bz2 / lzma on complete streams) sliced by the produced counts; snap::raw and CRC32 enter as tables (harness `decode snappy`, zlib.crc32); the runner's own walk of the file layout (block offsets for the replay keys). NOT tied by it: the request sizes on the model's real path (policy parameter; the end check's request is tied by `decend`), message texts, the per-call pretend_eof logic after the first error, runs too long for the list-based model (skipped and counted in coverage.notes), null-codec files (Container.cr_run). One tolerance (coverage.notes ... read_ahead): a decoder Err that reaches the crate's deserializer inside a value whose bytes were all out (read_slice calls fill_buf first, also for 0 bytes) fails that value in the crate; the model delivers it and meets the same Err afterwards",
     "std::io::BufRead contract (fill_buf/consume), read_exact, Take: modelled; the harness' ChunkedReader is the same machine as Reader.chunkst",
 ]
 ASSUMPTIONS = [
     "side condition of the property: no field larger than max_alloc_size (theorem: input length <= max_alloc)",
+    "tested, not proved: compressed container inputs of the run (complete, truncated, last bytes zeroed) read by the crate from a slice and under regular / irregular chunk plans agree with model/ContainerCodec.v reading the same bytes under the same plan (decoder replayed from the H4 trace): the chunk plan is threaded through header, blocks and markers in the model as in the harness' ChunkedReader (the replay decoder finds a block only under the chunk-plan state computed from the offset)",
     "container files: proved for the null codec (C11_container: same metadata, values and end of stream for any chunk plan); compressed files: proved for files written by the writer model with any block codec, for any chunking of the source, under the decoder contract (C11_compressed_file_chunk_independent; model/ContainerCodec.v); a general 'any accepted file reads identically under any chunking' is NOT provable for an abstract decoder (it sees the chunk plan and may depend on it outside its contract) and is decided on the crate (compression libraries are outside the model)",
 ]
 
@@ -77,16 +80,26 @@ def run(ctx):
         hs.append((h, ops, cont.CODECS[i % len(cont.CODECS)], rng.choice([0, 16, 65536])))
     wl = [cont.cw_line(h, c, b, "vec", [], ops) for (h, ops, c, b) in hs]
     clines, cgroups = [], []
+    wjobs = []
+    wrng = random.Random(ctx["seed"] * 1000003 + 1111)
     for (h, ops, c, b), res in zip(hs, C.run_parallel(C.AVRODRIVE, wl)):
         p = cont.parse_cw(res)
         if not p or p.get("build_err"):
             continue
         f = p["sink"]
-        for data in (f, f[:rng.randrange(len(f))], bytes(f[:-3]) + b"\x00\x00\x00"):
+        for vi, data in enumerate((f, f[:rng.randrange(len(f))], bytes(f[:-3]) + b"\x00\x00\x00")):
             start = len(clines)
             for pl in ["slice"] + ["(chunks %d)" % k for k in (1, 2, 3, 7, 64, 8191, 8192)] + ["(chunks %d %d %d)" % (rng.randint(1, 5), rng.randint(1, 50), rng.randint(1, 5))]:
                 clines.append("cr %s %s any 12" % (C.hx(data), pl))
             cgroups.append((start, len(clines), c))
+            # compressed files: the same bytes under chunk plans through the model of the compressed-file reader (model vs crate)
+            if c != "null":
+                cap = 0 if c == "snappy" else wrng.choice([1, 2, 7, 64, 0])
+                for pl in ["slice", "(chunks 1)", "(chunks %d)" % wrng.choice([2, 3, 5, 7]), "(chunks %d %d %d)" % (wrng.randint(1, 5), wrng.randint(1, 50), wrng.randint(1, 5)),
+                           "(chunks %s)" % " ".join(str(wrng.randint(1, 12)) for _ in range(wrng.randint(4, 9)))]:
+                    wjobs.append({"file": data, "cap": cap, "mode": pl, "ncalls": 12,
+                                  "where": "%s %s capacity %d %s" % (c, ("complete", "truncated", "last 3 bytes zeroed")[vi], cap, pl)})
+    wf = containercodec.compare(wjobs)
     cres = C.run_parallel(C.AVRODRIVE, clines)
     def ckey(r):
         p = cont.parse_cr(r)
@@ -113,7 +126,9 @@ def run(ctx):
                                        "slice": cres[a][:300], "reader": cres[i][:300]})
                     break
     samples = [{"case": lines[g[0] + 1][:200]} for g in groups[:4]]
-    return {"evaluations": len(lines) + len(clines), "distinct_nontrivial": len(distinct) + len(cgroups),
+    diffs.extend(wf["diffs"])
+    return {"evaluations": len(lines) + len(clines) + wf["evaluations"], "distinct_nontrivial": len(distinct) + len(cgroups),
+            "notes": {"whole_file_reader_model_vs_crate(compressed files under chunk plans)": wf["notes"]},
             "rule": "(schema, bytes) with bytes = valid encodings (random block layouts), valid + trailing data, and mutations (flipped continuation "
                     "bits, truncations, runs of 0x80/0xFF making over-long varints) x targets (dynamic, typed, ignored, random hints) x limits; "
                     "decoded from the slice and from readers with EVERY chunk size 1..min(len,24) plus irregular plans: same value (borrows "
